@@ -1228,6 +1228,12 @@ impl Gen {
                 Some(t) => t,
                 None => continue,
             };
+            // only books some version of the contract could have admitted: a bid's base, quote and fee
+            // amounts all passed through 96-bit decimals when it was created
+            const LIM96: u128 = 1u128 << 96;
+            if size >= LIM96 || total >= LIM96 {
+                continue;
+            }
             let quote = self.rng.pick(&info.supported_quote_denoms).clone();
             let fee_amt = if self.rng.pct(50) { total / 50 + self.rng.below(3) as u128 } else { 0 };
             let fee = if fee_amt > 0 { Some(coin(fee_amt, quote.clone())) } else { None };
